@@ -91,16 +91,17 @@ fn id_of_path(
         id_builder.push(comp.to_str()?)?;
     }
 
-    // Build the id of the file.
-    let name = Path::new(name);
-    id_builder.push(name.file_stem()?.to_str()?)?;
-    let id = id_builder.join();
-
     let entry = if is_dir.unwrap_or_else(|| path.is_dir()) {
-        OwnedDirEntry::Directory(id)
+        // The whole name of a directory is part of the id (it cannot
+        // contain a `.`)
+        id_builder.push(name.to_str()?)?;
+        OwnedDirEntry::Directory(id_builder.join())
     } else {
+        // Build the id of the file.
+        let name = Path::new(name);
+        id_builder.push(name.file_stem()?.to_str()?)?;
         let ext = crate::utils::extension_of(name)?.into();
-        OwnedDirEntry::File(id, ext)
+        OwnedDirEntry::File(id_builder.join(), ext)
     };
 
     Some(entry)
